@@ -155,9 +155,39 @@ def rows_equal_multiset(exp_rows, act_rows):
     return None
 
 
+def _round32(v):
+    import struct
+
+    try:
+        return struct.unpack("f", struct.pack("f", float(v)))[0]
+    except (OverflowError, struct.error):
+        return v
+
+
 def compare_with_ref(df, rt, mode, check_order=True):
     """Compare an exported frame with a REF table. Returns (problem | None, judged_as)."""
     names, rows = frame_table(df)
+    # a Float32 column carries single precision: compare after rounding both sides to float32 (REF computes in double)
+    import polars as pl
+
+    f32 = [j for j, n in enumerate(names) if df.schema[n] == pl.Float32]
+    if f32 and names == rt.names():
+        exp = [tuple((_round32(v) if (j in f32 and isinstance(v, float)) else v) for j, v in enumerate(r)) for r in rt.rows()]
+        rows = [tuple((_round32(v) if (j in f32 and isinstance(v, float)) else v) for j, v in enumerate(r)) for r in rows]
+        loose = True
+    else:
+        exp = None
+        loose = False
+    if loose:
+        global REL
+        old = REL
+        REL = 2e-6
+        try:
+            if check_order and rt.seq_ok(mode):
+                return rows_equal_ordered(exp, rows), "sequence"
+            return rows_equal_multiset(exp, rows), "multiset"
+        finally:
+            REL = old
     if names != rt.names():
         return f"column names {names} != expected {rt.names()}", "names"
     exp = rt.rows()
